@@ -103,7 +103,7 @@ def cases(draw):
         sends.append(send)
     ops = [[draw(st.sampled_from(['d', 'd', 'd', 'r', 'p', 'c'])), draw(st.integers(0, 255)), draw(st.integers(0, 255))]
            for _ in range(draw(st.integers(0, 30)))]
-    queries = draw(st.lists(st.sampled_from(['queue', 'pop', 'pop-twice', 'pop-unknown']), max_size=6))
+    queries = draw(st.lists(st.sampled_from(['queue', 'pop', 'pop-twice', 'pop-unknown', 'pop-file-bad']), max_size=6))
     poll = draw(st.one_of(st.booleans(), st.sampled_from([0, 1, 60000, 2 ** 31 - 1, 2 ** 31, 2 ** 40]).map(lambda v: {'interval': v})))
     return {'mtu': mtu, 'sends': sends, 'ops': ops, 'queries': queries, 'poll': poll}
 
@@ -308,6 +308,11 @@ def execute(case, out):
             res = recv.call('recv_bundle_pop_data', popped[0])
             if not hasattr(res, 'exc'):
                 out.fail('second-pop-succeeds', 'popping an already popped transfer returned %d octets again' % len(res))
+        elif query == 'pop-file-bad' and ids:
+            # a pop into a file that cannot be created fails, and must leave the bundle where it is
+            res = recv.call('recv_bundle_pop_file', ids[0], '/nonexistent-verif-directory/bundle.bin')
+            if not hasattr(res, 'exc'):
+                out.fail('pop-to-unwritable-file-succeeds', 'recv_bundle_pop_file into a missing directory did not fail')
         elif query == 'pop-unknown':
             res = recv.call('recv_bundle_pop_data', '424242')
             if not hasattr(res, 'exc'):
